@@ -1110,7 +1110,11 @@ def c02_cnt(rep, W, rule="C02.CNT"):
                        "set_snapshot stores versions_since_snapshot = %s; must be snapshot.versions_since" % (P.show(got) if got else e,), i.where())
             else:
                 rep.fail(rule, ("sql", mth, "unexpected-writer"), "versions_since_snapshot written by %s" % mth, i.where())
-    rep.floor(rule, "sql writers of versions_since_snapshot", nw, 2)
+    present = set(i.owner.deff.split("::")[-1] for i in inst if i.stmt and any(c == "versions_since_snapshot" for c, _ in i.stmt["writes"]))
+    rep.ob(rule, ("sql", "add_version", "increment-present"), "add_version" in present,
+           "sqlite add_version %s the versions-since counter" % ("updates" if "add_version" in present else "does NOT update"), where(W.impl_method("sqlite", "add_version")))
+    rep.ob(rule, ("sql", "set_snapshot", "reset-present"), "set_snapshot" in present,
+           "sqlite set_snapshot %s the versions-since counter" % ("stores" if "set_snapshot" in present else "does NOT store"), where(W.impl_method("sqlite", "set_snapshot")))
     mb = W.impl_method("inmemory", "add_version")
     ops, stores = E.inmem_summary(W, mb)
     g = W.gea(mb)
@@ -1806,3 +1810,160 @@ def _col_via(t, colmap):
         if x in colmap:
             return colmap[x]
     return None
+
+
+# =========================================================================== C12
+from tcss import interval as IV    # noqa: E402
+
+
+def term_types(W, body):
+    """repr(term) -> rust type, for every whole-local definition in the body."""
+    pv = W.prov(body)
+    out = {}
+    for l, sites_ in pv.defsites.items():
+        for s_ in sites_:
+            t = pv.def_term(s_)
+            out.setdefault(repr(t), body.locals[l]["ty"])
+    for i in range(1, body.arg_count + 1):
+        out[repr(pv.local_term(i))] = body.locals[i]["ty"]
+    return out
+
+
+def c12_arith(rep, W, cfgname, rule="C12"):
+    """Threshold arithmetic of the two urgency functions under one build configuration."""
+    cfg_adt = W.prog.adt("server::ServerConfig")
+    cfg_fields = {f["name"]: f["ty"] for f in cfg_adt["variants"][0]["fields"]} if cfg_adt else {}
+    for fname in ("for_days", "for_versions_since"):
+        body = W.body(WD.CORE + "::server::SnapshotUrgency::" + fname)
+        fn = short_fn(body) + "@" + cfgname
+        g = W.gea(body)
+        pv = W.prov(body)
+        x = ("param", 2, ANY)
+        cmps = [a for a in g.atoms if a[0] == "CMP"]
+        # normalise each comparison to  threshold <= x
+        th = []
+        for a in cmps:
+            if a[1] == "Le" and m(x, a[3]) is not None:
+                th.append((a, a[2], True))           # thr <= x
+            elif a[1] == "Lt" and m(x, a[2]) is not None:
+                th.append((a, a[3], False))          # x < thr  == not (thr <= x)
+        ok2 = len(cmps) == 2 and len(th) == 2
+        rep.ob(rule + ".SHAPE", (fn, "two-threshold-tests"), ok2, "%d comparison(s) of the measure against a threshold (need exactly 2 of the form measure >= threshold)" % len(th), where(body))
+        if not ok2:
+            continue
+        isfield = lambda t: t[0] == "field" and t[1][0] == "param" and t[1][1] == 1 and t[2] in cfg_fields  # noqa: E731
+        lows = [t for t in th if isfield(t[1])]
+        highs = [t for t in th if not isfield(t[1])]
+        if len(lows) != 1 or len(highs) != 1:
+            rep.fail(rule + ".SHAPE", (fn, "low-threshold-is-target"), "expected one threshold to be the configured target itself and one derived from it", where(body))
+            continue
+        (aL, L, posL), (aH, H, posH) = lows[0], highs[0]
+        fields_in_H = [y for y in P.walk(H) if isfield(y)]
+        params_ok = all(y[1] == 1 for y in P.walk(H) if y[0] == "param")
+        calls_ok = all(y[1].startswith("core::num::") for y in P.walk(H) if y[0] == "call")
+        other_ok = not any(y[0] in ("phi", "upvar", "unknown", "mut") for y in P.walk(H))
+        okdep = params_ok and calls_ok and other_ok and set(fields_in_H) == {L}
+        rep.ob(rule + ".SHAPE", (fn, "thresholds-depend-only-on-target"), okdep and not any(y[0] == "param" and y[1] == 2 for y in P.walk(H)),
+               "high threshold = %s, low threshold = %s; both must depend only on the same configured target, not on the measure" % (P.show(H), P.show(L)), where(body))
+        # outcome chain
+        fH = ("is", aH, posH)
+        nH = ("is", aH, not posH)
+        fL = ("is", aL, posL)
+        nL = ("is", aL, not posL)
+        want = {"High": fH, "Low": ("and", nH, fL), "None": ("and", nH, nL)}
+        seen_ = set()
+        for site, rt, val, kind in exit_kinds(W, body, lambda t: t[1][2] if t[0] == "agg" and isinstance(t[1], tuple) and t[1][1].endswith("SnapshotUrgency") else "?"):
+            seen_.add(kind)
+            f = want.get(kind)
+            rep.ob(rule + ".SHAPE", (fn, "outcome", kind), f is not None and G.ev(f, val) is True,
+                   "urgency %s is returned under %s" % (kind, G.show_val({k: v for k, v in val.items() if k in (aH, aL)})), where(body, line=exit_line(body, site)))
+        rep.ob(rule + ".SHAPE", (fn, "all-three-outcomes"), seen_ == {"High", "Low", "None"}, "outcomes produced: %s" % sorted(seen_), where(body), nontrivial=False)
+        # arithmetic
+        tys = term_types(W, body)
+        sty = cfg_fields[L[2]]
+        rng = IV.INT_RANGES.get(sty)
+        if rng is None:
+            rep.fail(rule + ".NOFAIL", (fn, "target-type"), "target %s has non-integer type %s" % (L[2], sty), where(body))
+            continue
+        srange = (max(0, rng[0]), rng[1])
+
+        def type_of(t):
+            if t[0] == "const":
+                return t[3]
+            return tys.get(repr(t))
+        ip = IV.Interp(L, sty, srange, type_of)
+        avH = ip.ev(H)
+        # every arithmetic definition in the function is evaluated (not just those feeding H)
+        for l, sites_ in pv.defsites.items():
+            for s_ in sites_:
+                t = pv.def_term(s_)
+                if t[0] == "binop" or (t[0] == "call" and t[1].startswith("core::num::")):
+                    ip.ev(t if not t[1].endswith("WithOverflow") else ("field", t, "0"))
+        fnd = [f_ for f_ in ip.findings]
+        rep.ob(rule + ".NOFAIL", (fn, "no-overflow"), not fnd,
+               "threshold arithmetic for every target in [%d, %d]: %s" % (srange[0], srange[1], "; ".join(f_.detail for f_ in fnd) if fnd else
+                                                                          "no operation can leave its type range (%d arithmetic site(s))" % len(ip.sites)),
+               where(body), sample={"target": L[2], "type": sty, "sites": [(o, t_, str(r), fits) for o, t_, r, fits in ip.sites], "high_threshold": repr(avH)})
+        okge, why = IV.ge_sym(avH, srange)
+        rep.ob(rule + ".ORDER", (fn, "high>=low"), okge, "high threshold >= low threshold for every target: %s" % why, where(body), sample={"H": P.show(H), "abstract": repr(avH)})
+        from fractions import Fraction as Fr
+        okf = (avH.lin_lo is not None and avH.lin_hi is not None and avH.lin_lo[0] == Fr(3, 2) and avH.lin_lo[1] >= -1
+               and avH.lin_hi[0] == Fr(3, 2) and avH.lin_hi[1] <= 0 and (avH.lin_lo[2] is None or avH.lin_lo[2] >= srange[1]))
+        rep.ob(rule + ".FACTOR", (fn, "one-and-a-half-times"), okf,
+               "high threshold is within one of 1.5 x target (or the type maximum where that is not representable): bounds %s" % repr(avH), where(body))
+        rep.floor(rule + ".NOFAIL", fn + " arithmetic sites", len(ip.sites), 1, where(body))
+
+
+def c12_max(rep, W, rule="C12.MAX"):
+    body = W.op("add_version")
+    fn = short_fn(body)
+    g = W.gea(body)
+    pv = W.prov(body)
+    txn = txn_term_of(W, body)[0][2]
+    client, _ = client_term(W, body, txn)
+    snap = ("ok", ("field", client, "snapshot"))
+    cfg = ("field", ("param", 1, ANY), "config")
+    snap_atom = ("VARIANT", ("field", client, "snapshot"))
+    n = 0
+    for site, rt, val, kind in exit_kinds(W, body, av_kind):
+        if kind != "accept":
+            continue
+        n += 1
+        mm = m(pat.adt("Result", "Ok", ("0", pat.tup(ANY, V("u")))), rt)
+        u = mm["u"] if mm else None
+        ln = exit_line(body, site)
+        if u is None or not (u[0] == "call" and u[1] == "core::cmp::max" and len(u[3]) == 2):
+            rep.fail(rule, (fn, "max"), "urgency of an accepted version is %s; must be max(time urgency, version urgency)" % (P.show(u) if u else "?"), where(body, line=ln))
+            continue
+        has = val.get(snap_atom)
+        a0, a1 = u[3]
+        high = pat.adt("SnapshotUrgency", "High")
+        if has == frozenset(["err"]):
+            rep.ob(rule, (fn, "no-snapshot-is-high"), m(high, a0) is not None and m(high, a1) is not None,
+                   "without a stored snapshot both urgencies are High (got %s, %s)" % (P.show(a0), P.show(a1)), where(body, line=ln))
+        elif has == frozenset(["ok"]):
+            days = call("chrono::time_delta::TimeDelta::num_days", call("core::ops::arith::Sub::sub", call("chrono::offset::utc::Utc::now"), ("field", snap, "timestamp")))
+            pd = call(WD.CORE + "::server::SnapshotUrgency::for_days", cfg, days)
+            pvz = call(WD.CORE + "::server::SnapshotUrgency::for_versions_since", cfg, ("field", snap, "versions_since"))
+            okm = (m(pd, a0) is not None and m(pvz, a1) is not None) or (m(pd, a1) is not None and m(pvz, a0) is not None)
+            rep.ob(rule, (fn, "measures-from-pre-request-record"), okm,
+                   "with a snapshot: max(%s, %s); must be for_days(&self.config, (now - snapshot.timestamp).num_days()) and "
+                   "for_versions_since(&self.config, snapshot.versions_since) of the client record read before the append" % (P.show(a0)[:110], P.show(a1)[:110]),
+                   where(body, line=ln))
+        else:
+            rep.fail(rule, (fn, "snapshot-known"), "accepted outcome under an undetermined snapshot presence", where(body, line=ln))
+    rep.floor(rule, "accepted outcomes examined", n, 2, where(body))
+    # Server::new stores the configuration it is given
+    nb = W.body(WD.SERVER_TY + "::new")
+    okn = False
+    for site, term in exits(W, nb):
+        mm = m(pat.adt("Server", "Server", ("config", ("param", 1, ANY)), ("storage", ANY)), term)
+        okn = okn or mm is not None
+    rep.ob(rule, (short_fn(nb), "stores-config"), okn, "Server::new stores its config parameter in Server.config (the value the urgency functions read)", where(nb))
+    # enum order None < Low < High, derived Ord
+    su = W.prog.adt("server::SnapshotUrgency")
+    order = [v["name"] for v in su["variants"]] if su else []
+    rep.ob(rule, ("SnapshotUrgency", "declaration-order"), order == ["None", "Low", "High"], "variant order %s (max() uses the derived ordering None < Low < High)" % order)
+    ordb = W.prog.body("<%s::server::SnapshotUrgency as core::cmp::Ord>::cmp" % WD.CORE)
+    okd = ordb is not None and [t["callee"].get("def") for _, t in ordb.calls()].count("core::intrinsics::discriminant_value") == 2
+    rep.ob(rule, ("SnapshotUrgency", "derived-Ord"), okd, "Ord::cmp compares discriminants (derive(Ord))", nontrivial=False)
